@@ -198,11 +198,13 @@ func (sw *SprayAndWait) ReportFailure(bp BundleDescriptor, sender cla.Convergenc
 		return
 	}
 
-	metadata.remainingCopies = metadata.remainingCopies + 1
-
 	for i := 0; i < len(metadata.sent); i++ {
 		if metadata.sent[i] == sender.GetPeerEndpointID() {
 			metadata.sent = append(metadata.sent[:i], metadata.sent[i+1:]...)
+
+			// Only a peer which was given a copy hands it back. Failed direct deliveries to the bundle's
+			// destination are reported as well, but those were never charged.
+			metadata.remainingCopies = metadata.remainingCopies + 1
 			break
 		}
 	}
@@ -406,12 +408,13 @@ func (bs *BinarySpray) ReportFailure(bp BundleDescriptor, sender cla.Convergence
 		}).Warn("No metadata")
 		return
 	}
-	// The copies announced to the peer were never handed over, take them back.
-	metadata.remainingCopies = metadata.remainingCopies + binarySprayBlock.RemainingCopies()
-
 	for i := 0; i < len(metadata.sent); i++ {
 		if metadata.sent[i] == sender.GetPeerEndpointID() {
 			metadata.sent = append(metadata.sent[:i], metadata.sent[i+1:]...)
+
+			// The copies announced to this peer were never handed over, take them back. Failed direct
+			// deliveries to the bundle's destination are reported as well, but those were never charged.
+			metadata.remainingCopies = metadata.remainingCopies + binarySprayBlock.RemainingCopies()
 			break
 		}
 	}
